@@ -61,7 +61,10 @@ def decide_wb_models(tier):
 
 
 for _p in ("C01", "C02", "C09", "C11", "C13"):
-    PLANS[_p] = Plan(_p, decide_wb_models, extra=(lambda tier, seed: gen.random_decide(tier, seed) + gen.client_conditionals(tier)) if _p == "C02" else gen.random_decide,
+    PLANS[_p] = Plan(_p, (lambda tier: decide_wb_models(tier) + hist_models("cond")(tier)) if _p == "C02" else decide_wb_models,
+                     extra=(lambda tier, seed: gen.random_decide(tier, seed) + gen.client_conditionals(tier)) if _p == "C02"
+                     else (lambda tier, seed: gen.random_decide(tier, seed) + gen.random_vary(tier, seed)) if _p == "C09"   # reuse is owed per variant
+                     else gen.random_decide,
                      rule=DECIDE_RULE + "; plus the MC_hist family wb (validation by 304 with / without Cache-Control, Age, Date, by a new "
                                         "representation, in the foreground or background, then probes)")
 # only-if-cached also on requests the cache never answers from its store (other methods, Range): family "store"
@@ -218,7 +221,7 @@ def bytes_scenarios(rows, tier, seed):
     return out
 
 
-PLANS["C06"] = Plan("C06", lambda tier: store_models(tier) + hist_models("wb")(tier), extra=gen.random_store,
+PLANS["C06"] = Plan("C06", lambda tier: store_models(tier) + hist_models("wb", "cond")(tier), extra=gen.random_store,
                     rule="behaviours = the MC_store table (status x response directives x explicit freshness x request shape x "
                          "complete / failing body, then a probe) exported by TLC and replayed, plus seeded random exchanges over "
                          "all statuses 100-599 and body streams failing at every byte of a small body; the NothingStored monitor "
